@@ -182,14 +182,14 @@ GEN = {"kernel": ("theories/Gen/GenEquiv.vo", "kernel of /repo (gene_datum.py, o
                 "the density stage of an overlap job opens exactly that job's own three files"),
        "pair": ("theories/Props/C16code.vo", "DensityData._pair_by_chromosome of /repo, statement by statement (the dictionary of the GeneData, the set of stored chromosome identifiers of every result file, list(ids)[0] as an oracle), and the use of its result by both directory constructors: "
                 "equal to Model.Pair.pair_spec for every list of files and GeneData; returns only pairs of a file storing exactly one chromosome with the GeneData of that chromosome, refuses everything else (Proofs/PairP.v)"),
-       "flow": ("theories/Props/C17code.vo", "failure propagation in /repo (every def of process_genome.py, overlap_manager, overlap, merge_data, preprocess, verify_cache, revise_annotation, gene_data, transposon_data, the two importers, transposon/__init__, and the __main__ block with its three stages): "
+       "flow": ("theories/Props/C17code.vo", "failure propagation in /repo (every def of process_genome.py, overlap_manager, overlap, merge_data, preprocess, verify_cache, revise_annotation, gene_data, transposon_data, the two importers, transposon/__init__, density_data, density2, and the __main__ block with its three stages): "
                 "try / except / else / finally, with, loops, return / break / continue, raise, sys.exit as programs of Model/Flow.v; no handler, finally clause or __exit__ swallows an exception, and the main block starts density jobs only after preprocessing and the overlap stage have completed - for every execution of the big-step semantics (Proofs/FlowP.v)"),
        "store": ("theories/Props/C19code.vo", "opening of /repo's density store (_DensitySubset.__init__ and the six methods it calls), executed symbolically over h5py's require_dataset: equal to Model.Store2.open for every configuration and stored group (Proofs/StoreCodeP.v)"),
        "cf_worker_run": ("theories/Props/C20code.vo", "control flow of /repo's WorkerProcess.run (+ _send_result) as an interaction program: equal to Model/Worker.v on every script (Proofs/WorkerProgP.v)"),
        "cf_handle_chrome": ("theories/Props/C11code.vo", "control flow of /repo's _ProgressBars.handle_chrome (+ _pop, _collect) as an interaction program: in lockstep with Model/Collector.v under every schedule (Proofs/CollectorProgP.v)")}
 # further property files (theorems about the translated code) whose theorems and Print Assumptions are checked with the property's own
-EXTRA_PROPS = {"C01": ["C01code.v", "C01merge.v", "C01e2e.v", "CodeCell.v"], "C04": ["C01code.v", "CodeCell.v"], "C07": ["C01code.v", "C01merge.v", "C07code.v"], "C08": ["C01code.v", "C01merge.v", "C08code.v"], "C20": ["C20code.v"], "C11": ["C11code.v", "C05code.v", "C17code.v"], "C02": ["C02code.v"], "C03": ["C03float.v", "C03code.v"], "C13": ["C13code.v"], "C18": ["C18code.v", "C17code.v"], "C15": ["C15code.v"], "C09": ["C15code.v", "C09code.v"], "C12": ["C12code.v"], "C17": ["C12code.v", "C17code.v"], "C19": ["C19code.v"],
-               "C05": ["C18code.v", "C05code.v", "CodeCell.v"], "C06": ["C06code.v"], "C16": ["C16code.v"], "C14": ["C14code.v"], "C10": ["C14code.v"]}
+EXTRA_PROPS = {"C01": ["C01code.v", "C01merge.v", "C01e2e.v", "CodeCell.v"], "C04": ["C01code.v", "CodeCell.v"], "C07": ["C01code.v", "C01merge.v", "C07code.v"], "C08": ["C01code.v", "C01merge.v", "C08code.v"], "C20": ["C20code.v"], "C11": ["C11code.v", "C05code.v", "C17code.v"], "C02": ["C02code.v"], "C03": ["C03float.v", "C03code.v"], "C13": ["C13code.v"], "C18": ["C18code.v", "C17code.v"], "C15": ["C15code.v"], "C09": ["C15code.v", "C09code.v"], "C12": ["C12code.v"], "C17": ["C12code.v", "C17code.v"], "C19": ["C19code.v", "C17code.v"],
+               "C05": ["C18code.v", "C05code.v", "CodeCell.v"], "C06": ["C06code.v"], "C16": ["C16code.v", "C17code.v"], "C14": ["C14code.v"], "C10": ["C14code.v"]}
 # axioms of Coq's standard library that the theorems of a property file may depend on (everything else: none)
 STDLIB_REALS = {"ClassicalDedekindReals.sig_forall_dec", "ClassicalDedekindReals.sig_not_dec",
                 "FunctionalExtensionality.functional_extensionality_dep", "Classical_Prop.classic"}
@@ -197,7 +197,7 @@ ALLOWED_AXIOMS = {"C03float.v": STDLIB_REALS}
 # which translated parts each property's theorems rest on
 NEEDS = {"C01": ["kernel", "revise", "overlap", "merge", "lookup"], "C02": ["kernel", "revise"], "C03": ["kernel", "overlap", "merge"], "C04": ["kernel", "revise", "overlap", "merge", "lookup"], "C08": ["kernel", "overlap", "merge", "lookup"], "C05": ["kernel", "guards", "jobs", "overlap", "merge", "lookup"], "C06": ["kernel", "overlap", "merge", "lookup"], "C07": ["kernel", "overlap", "merge", "lookup"],
          "C10": ["kernel", "overlap", "merge", "lookup"], "C14": ["kernel", "cache", "overlap", "merge", "lookup"], "C12": ["cache", "guards", "writers"], "C13": ["cache", "guards"], "C17": ["cache", "guards", "writers", "flow"],
-         "C18": ["guards", "flow"], "C19": ["store"], "C09": ["reader"], "C15": ["reader"], "C16": ["reader", "pair"],
+         "C18": ["guards", "flow"], "C19": ["store", "flow"], "C09": ["reader"], "C15": ["reader"], "C16": ["reader", "pair", "flow"],
          "C20": ["cf_worker_run"], "C11": ["cf_handle_chrome", "cache", "jobs", "flow"]}
 
 
